@@ -343,7 +343,7 @@ pub fn run_check(tier: Tier) -> i32 {
         // faults over the reduced index set: first / middle / last index of
         // every maximal run of writes not separated by a seek
         let mut pairs = 0usize;
-        if tier.thorough() && (script.name.starts_with("S1") || script.name.starts_with("S2")) {
+        if tier.thorough() && (script.name.starts_with("S1") || script.name.starts_with("S2") || script.name.starts_with("S4") || script.name.starts_with("S8")) {
             let mut reduced: Vec<u64> = Vec::new();
             let mut run_start: Option<u64> = None;
             let mut widx = 0u64;
@@ -425,7 +425,7 @@ pub fn run_check(tier: Tier) -> i32 {
     rep.set("medium_states_reopened_and_compared_with_the_model", states_checked);
     rep.set("per_script", serde_json::Value::Object(per_script));
     rep.set("exhaustive", true);
-    rep.set("rule", "for each script: one run per (call kind, index k, mode): every write index transient and persistent, every read and seek index transient, every flush index both modes; thorough adds all ordered pairs of transient write faults over the reduced index set (first/middle/last of every seek-delimited run of writes) for S1/S2. Oracle: no panic; whenever every call so far returned Ok at a flush (or at into_inner) the bytes on the medium reopen to exactly the model of those calls. distinct_nontrivial = runs in which the injected fault actually fired (each is a distinct fault point)");
+    rep.set("rule", "for each script: one run per (call kind, index k, mode): every write index transient and persistent, every read and seek index transient, every flush index both modes; thorough adds all ordered pairs of transient write faults over the reduced index set (first/middle/last of every seek-delimited run of writes) for S1/S2/S4/S8. Oracle: no panic; whenever every call so far returned Ok at a flush (or at into_inner) the bytes on the medium reopen to exactly the model of those calls. distinct_nontrivial = runs in which the injected fault actually fired (each is a distinct fault point)");
     rep.finish()
 }
 
